@@ -374,10 +374,16 @@ def eval_key_obligations(repo):
             arg = c.args[2]
             names = {x.id for x in ast.walk(arg) if isinstance(x, ast.Name)}
             # follow one level of local re-binding of those names (catch_args = (expr,) + catch_args)
-            for a in ast.walk(fn):
-                if isinstance(a, ast.Assign) and isinstance(a.targets[0], ast.Name) and a.targets[0].id in names and a.lineno < c.lineno:
-                    sliced = {id(x.value) for x in ast.walk(a.value) if isinstance(x, ast.Subscript)}  # `p[1::2]` carries only part of p
-                    names |= {x.id for x in ast.walk(a.value) if isinstance(x, ast.Name) and id(x) not in sliced}
+            grew = True
+            while grew:
+                grew = False
+                for a in ast.walk(fn):
+                    if isinstance(a, ast.Assign) and isinstance(a.targets[0], ast.Name) and a.targets[0].id in names and a.lineno < c.lineno:
+                        sliced = {id(x.value) for x in ast.walk(a.value) if isinstance(x, ast.Subscript)}  # `p[1::2]` carries only part of p
+                        more = {x.id for x in ast.walk(a.value) if isinstance(x, ast.Name) and id(x) not in sliced} - names
+                        if more:
+                            names |= more
+                            grew = True
             missing = [p for p in own if p not in names]
             n += 1
             out.append((f"{mod.rel}:{q}:hash_args_eval:all-arguments", not missing, f"{q} computes its own cache key from `{src(arg)[:60]}`, which does not cover its parameter(s) {missing}: two calls that differ only there "
